@@ -16,6 +16,7 @@ func register(id string, run func(string) *engine.Report, replay func(engine.Vio
 
 func init() {
 	register("C01", C01, C01Replay)
+	register("C02", C02, C02Replay)
 	register("C03", C03, C03Replay)
 	register("C04", C04, C04Replay)
 	register("C06", C06, C06Replay)
